@@ -3355,7 +3355,8 @@ idx_t dtw_best_path(seq_t *wps, idx_t *i1, idx_t *i2, idx_t l1, idx_t l2,
             cs = l2;
         } else if (l2 - cs > 1 || settings->psi_1e == 0) {
             rs = l1;
-        } else if (dtw_wps_get(&p, wps, rs, l2) < dtw_wps_get(&p, wps, l1, cs)) {
+        } else if (cs == 0 || (rs > 0 && dtw_wps_get(&p, wps, rs, l2) < dtw_wps_get(&p, wps, l1, cs))) {
+            // (row 0 and column 0 are the border, not cells of the matrix)
             // Only the corner is marked: the smallest of its two neighbours was chosen (last row on ties)
             cs = l2;
         } else {
